@@ -14,7 +14,7 @@ def vm_plan(quick_dev_scale=0.2, thorough_extra=(), quick_scale=1.0):
         "quick": [vh("vm-release", "vm", "release", quick_scale, timeout=600),
                   vh("vm-dev", "vm", "dev", quick_dev_scale * quick_scale, timeout=600)],
         "thorough": [vh("vm-release", "vm", "release", 1.0, timeout=3000),
-                     vh("vm-relchk", "vm", "relchk", 0.5, timeout=3000),
+                     vh("vm-relchk", "vm", "relchk", 0.3, timeout=3000),
                      vh("vm-dev", "vm", "dev", 0.05, timeout=3000)] + list(thorough_extra),
     }
 
